@@ -9,8 +9,10 @@ import (
 	"math/big"
 	"os"
 	"os/exec"
+	"sort"
 	"strings"
 	"sync"
+	"sync/atomic"
 	"time"
 )
 
@@ -28,6 +30,9 @@ type proc struct {
 	time              time.Duration
 	dead              bool
 	seq               int
+	curQ              int64
+	qmu               sync.Mutex
+	wins              int
 }
 
 func (p *proc) start() error {
@@ -63,12 +68,33 @@ func (p *proc) readUntil(marker string) ([]string, error) {
 }
 
 type answer struct {
+	idx    int
 	res    string
 	values []*big.Int
 	from   string
 }
 
 // run one query synchronously on this process.
+// killIfRunning kills the solver process if it is still working on query q.
+func (p *proc) killIfRunning(q int64) {
+	p.qmu.Lock()
+	defer p.qmu.Unlock()
+	if p.curQ == q && p.cmd != nil && p.cmd.Process != nil {
+		p.cmd.Process.Kill()
+	}
+}
+
+func (p *proc) runQ(q int64, script string, refs []string, wantModel bool) answer {
+	p.qmu.Lock()
+	p.curQ = q
+	p.qmu.Unlock()
+	a := p.run(script, refs, wantModel)
+	p.qmu.Lock()
+	p.curQ = 0
+	p.qmu.Unlock()
+	return a
+}
+
 func (p *proc) run(script string, refs []string, wantModel bool) answer {
 	t0 := time.Now()
 	defer func() { p.time += time.Since(t0); p.queries++ }()
@@ -250,12 +276,25 @@ type Portfolio struct {
 	Disagree []string
 	Log      io.Writer
 	Errors   []string
+	avg      time.Duration
+	qid      int64
+}
+
+func (pf *Portfolio) delay() time.Duration {
+	d := 3 * pf.avg
+	if d < 150*time.Millisecond {
+		d = 150 * time.Millisecond
+	}
+	if d > 3*time.Second {
+		d = 3 * time.Second
+	}
+	return d
 }
 
 func NewPortfolio(timeoutMs int, which string) (*Portfolio, error) {
 	pf := &Portfolio{ByWinner: map[string]int{}}
 	if which == "" {
-		which = "z3,cvc5"
+		which = "cvc5bv,z3,cvc5"
 	}
 	for _, w := range strings.Split(which, ",") {
 		var p *proc
@@ -292,27 +331,40 @@ func (pf *Portfolio) Check(as []*Term, extra []*Term, wantModel bool) (string, [
 		fmt.Fprintf(pf.Log, "; ---- query\n%s(check-sat)\n", script)
 	}
 	ch := make(chan answer, len(pf.procs))
-	started := 0
-	for _, p := range pf.procs {
-		if p.mu.TryLock() {
-			started++
-			go func(p *proc) {
-				a := p.run(script, refs, wantModel)
-				p.mu.Unlock()
-				ch <- a
-			}(p)
-		}
+	var answered int32
+	done := make(chan struct{})
+	started := len(pf.procs)
+	pf.mu.Lock()
+	pf.qid++
+	qid := pf.qid
+	// rank solvers by wins so far (stable)
+	order := make([]int, len(pf.procs))
+	for i := range order {
+		order[i] = i
 	}
-	if started == 0 {
-		// all busy with stale queries: wait for the first one
-		p := pf.procs[0]
-		p.mu.Lock()
-		started = 1
-		go func() {
-			a := p.run(script, refs, wantModel)
+	sort.SliceStable(order, func(x, y int) bool { return pf.procs[order[x]].wins > pf.procs[order[y]].wins })
+	delay := pf.delay()
+	pf.mu.Unlock()
+	for rank, i := range order {
+		go func(rank, i int, p *proc) {
+			if rank > 0 {
+				// staggered start: give the preferred solver(s) a head start
+				select {
+				case <-done:
+				case <-time.After(time.Duration(rank) * delay):
+				}
+			}
+			p.mu.Lock() // waits until the process is free (a killed straggler restarts lazily)
+			if atomic.LoadInt32(&answered) != 0 {
+				p.mu.Unlock()
+				ch <- answer{res: "skipped", from: p.name}
+				return
+			}
+			a := p.runQ(qid, script, refs, wantModel)
 			p.mu.Unlock()
+			a.idx = i
 			ch <- a
-		}()
+		}(rank, i, pf.procs[i])
 	}
 	var first answer
 	got := 0
@@ -322,30 +374,28 @@ func (pf *Portfolio) Check(as []*Term, extra []*Term, wantModel bool) (string, [
 		got++
 		if definite(a.res) {
 			first = a
+			atomic.StoreInt32(&answered, 1)
+			close(done)
 			break
 		}
 		notes = append(notes, a.from+": "+a.res)
 	}
-	remaining := started - got
-	if remaining > 0 && definite(first.res) {
-		// drain stragglers in background; cross-check their verdicts
-		go func(exp answer, n int) {
-			for i := 0; i < n; i++ {
-				a := <-ch
-				if definite(a.res) && a.res != exp.res {
-					pf.mu.Lock()
-					pf.Disagree = append(pf.Disagree, fmt.Sprintf("%s says %s, %s says %s", exp.from, exp.res, a.from, a.res))
-					pf.mu.Unlock()
-				}
-			}
-		}(first, remaining)
+	if definite(first.res) {
+		// stop stragglers: they would only burn CPU (they restart lazily on next use)
+		for _, p := range pf.procs {
+			p.killIfRunning(qid)
+		}
 	}
 	pf.mu.Lock()
 	pf.Queries++
 	pf.Time += time.Since(t0)
 	if definite(first.res) {
 		pf.ByWinner[first.from]++
+		d := time.Since(t0)
+		pf.procs[first.idx].wins++
+		pf.avg = (pf.avg*7 + d) / 8
 	} else {
+		close(done)
 		for _, n := range notes {
 			if strings.Contains(n, "error") {
 				pf.Errors = append(pf.Errors, n)
@@ -353,6 +403,12 @@ func (pf *Portfolio) Check(as []*Term, extra []*Term, wantModel bool) (string, [
 		}
 	}
 	pf.mu.Unlock()
+	if d := time.Since(t0); os.Getenv("VERIF_TRACE") != "" && d > 500*time.Millisecond {
+		fmt.Fprintf(os.Stderr, "[slow query %.1fs] %s by %s; %d assertions, script %d bytes; notes %v\n", d.Seconds(), first.res, first.from, len(as), len(script), notes)
+		if lf := os.Getenv("VERIF_SLOWDUMP"); lf != "" {
+			os.WriteFile(fmt.Sprintf("%s.%d.smt2", lf, pf.Queries), []byte(script+"(check-sat)\n"), 0o644)
+		}
+	}
 	if !definite(first.res) {
 		return "unknown (" + strings.Join(notes, "; ") + ")", nil
 	}
